@@ -238,6 +238,89 @@ ALL_POS_1 = ["run1.before"] + AFTER_PRODUCER_1
 AFTER_PRODUCER_3 = ["run3.adjacent", "run3.distant", "run3.afterfail", "run3.onsuccess", "run3.onexit"]   # `restart`: a complete new run
 
 
+KILLED_RETRY_POS = [("run2.afterblock", "environment-consumer"), ("run2.distant", "environment-consumer"), ("run2.onsuccess", "handler"),
+                    ("run2.onexit", "handler")]
+KILLED_RETRY_ARG = [("run2.afterblockarg", "command-line-consumer")]
+
+
+def judge_killed(chk, c, r, rc, stats, model_cap, disagree):
+    """the run was ended from outside (SIGKILL: no final record; SIGTERM: orderly stop) after the producer had been RECORDED finished,
+       then retried with the real command: the producer is not run again, and every consumer / handler the retry runs sees the trimmed
+       captured value.  Independent of the Lean model."""
+    cid = c["id"]
+    how = "killed" if c["kill"] == "KILL" else "stopped"
+    outb = unhx(c["out"])
+    exp_out = outb.strip()
+    chk.nontrivial.add(("kill", c["kill"], c.get("killearly"), c["out"][:64], len(outb)))
+    stats["dyn_%s_then_retried" % how] = stats.get("dyn_%s_then_retried" % how, 0) + 1
+    if r.get("timeout"):
+        chk.violation("C11:retry-of-a-%s-run-did-not-finish:%s" % (how, r.get("phase")),
+                      "run %s after the producer was recorded finished, then `retry --req`: phase %s did not end within %d ms" %
+                      (how, r.get("phase"), c["timeout"]), rc)
+        return
+    if r.get("find_err") or r.get("load2_err"):
+        chk.violation("C11:run-not-possible", "%s run / its retry left no record: %s" % (how, r.get("find_err") or r.get("load2_err")), rc); return
+    if r.get("record_carries_output"): stats["dyn_retried_record_carries_output"] = stats.get("dyn_retried_record_carries_output", 0) + 1
+    if how == "killed" and r.get("run1_status") != "running":
+        chk.oblige("harness-expectation:%s" % cid, False, "the killed run's last record says %r (a final record was written?)" % r.get("run1_status"))
+    if r.get("producer_runs") != 1:
+        # then nothing is restored from the record: the leg would not test what it is meant to
+        chk.oblige("harness-expectation:%s" % cid, False, "producer executed %s times over run + retry (1 expected: it was recorded finished), statuses %s / %s" %
+                   (r.get("producer_runs"), r.get("run1_nodes"), r.get("run2_nodes")))
+    probes, argp = r.get("probes", {}), r.get("argprobes", {})
+    key = hx(c.get("outname", "OUT"))
+    # the first run, as far as it got (consumers before the blocker; the handlers of an orderly stop)
+    run1 = ([("run1.first", True)] if not c.get("killearly") else []) + ([("run1.oncancel", False), ("run1.onexit", False)] if how == "stopped" else [])
+    for pos, must in run1:
+        pr = probes.get(pos)
+        if pr is None:
+            if must: chk.violation("C11:consumer-did-not-run:" + pos.split(".")[1], "no probe at %s (statuses %s)" % (pos, r.get("run1_nodes")), rc)
+            continue
+        got = None if pr.get(key) is None else unhx(pr[key])
+        if got != exp_out:
+            chk.violation("C11:output-wrong-in-run:other", "$OUT at %s is %r, the producer's trimmed stdout is %r" % (pos, got, exp_out[:80]), rc)
+    if not c.get("killearly"):
+        a = argp.get("run1.firstarg")
+        if a is None or [unhx(x) for x in a] != [exp_out]:
+            chk.violation("C11:output-wrong-in-run:other", "`command: … $OUT` at run1.firstarg received %r, the producer's trimmed stdout is %r" %
+                          (a and [unhx(x)[:60] for x in a], exp_out[:80]), rc)
+    # the retry
+    what = "run %s (last record: %s, nodes %s; that record %s the variable) and retried" % (
+        how, r.get("run1_status"), r.get("run1_nodes"), "carries" if r.get("record_carries_output") else "DOES NOT carry")
+    for pos, kind in KILLED_RETRY_POS:
+        pr = probes.get(pos)
+        if pr is None:
+            chk.violation("C11:consumer-did-not-run:" + pos.split(".")[1], "no probe at %s in the retry of a %s run (statuses %s / %s)" %
+                          (pos, how, r.get("run1_nodes"), r.get("run2_nodes")), rc)
+            continue
+        got = None if pr.get(key) is None else unhx(pr[key])
+        if got != exp_out:
+            chk.violation("C11:output-lost-in-retry-of-a-%s-run:%s" % (how, kind),
+                          "%s: $OUT at %s is %r (None = unset), the producer's trimmed stdout is %r; the producer ran %s time(s)" %
+                          (what, pos, None if got is None else got[:80], exp_out[:80], r.get("producer_runs")), rc)
+        elif model_cap is not None and got != model_cap.encode():
+            disagree(cid, "restored-after-%s:%s" % (how, pos), got[:40], model_cap[:40], c)
+    for pos, kind in KILLED_RETRY_ARG:
+        a = argp.get(pos)
+        if a is None:
+            chk.violation("C11:consumer-did-not-run:" + pos.split(".")[1], "no probe at %s in the retry of a %s run (statuses %s / %s)" %
+                          (pos, how, r.get("run1_nodes"), r.get("run2_nodes")), rc)
+            continue
+        got = [unhx(x) for x in a]
+        if got != [exp_out]:
+            chk.violation("C11:output-lost-in-retry-of-a-%s-run:%s" % (how, kind),
+                          "%s: `command: … $OUT` at %s received %r, the producer's trimmed stdout is %r; the producer ran %s time(s)" %
+                          (what, pos, [g[:80] for g in got], exp_out[:80], r.get("producer_runs")), rc)
+    # parameters of the retried run (same recorded string as an ordinary retry)
+    for pos in ("run2.afterblock", "run2.onexit"):
+        pr = probes.get(pos)
+        if pr is None: continue
+        g1 = None if pr.get(hx("1")) is None else unhx(pr[hx("1")])
+        gk = None if pr.get(hx("K")) is None else unhx(pr[hx("K")])
+        if (g1, gk) != (b"p1", b"v"):
+            chk.violation("C11:params-changed-on-retry:other", "retry of a %s run started with the defaults `p1 K=v`: at %s $1 = %r, $K = %r" % (how, pos, g1, gk), rc)
+
+
 def run(chk, replay):
     chk.trusted = common.TRUSTED_COMMON + [
         "Go's regexp engine: the parameter regex is replaced by a hand-written recogniser (Params.matchAt), validated differentially "
@@ -341,6 +424,22 @@ def run(chk, replay):
                  "preout": bool(extra.get("preout")), "restart": bool(extra.get("restart")), "timeout": 60000}
             cases.append(c)
             meta[cid] = {"kind": "dyn", "items": its, "p": p, "at_start": at_start}
+        # ---- "killed run, then retry": producer -> [consumers] -> blocker -> consumers; the real `start` process is SIGKILLed from
+        #      outside once the history RECORDS the producer as finished (no final record is ever written), its step processes too;
+        #      then the real `retry --req`.  The retry reads the LAST WRITTEN record, whichever it is.  Control: the same with SIGTERM
+        #      (an orderly stop; the final record is written).
+        killed = [("KILL", False, b"  two words \"quoted\" 'single'  \n"),
+                  ("KILL", True, b"id=42;sig=c2ln==\n"),
+                  ("KILL", False, b"\n line one\n  line two = \"2\" \n\n"),
+                  ("KILL", True, b" \n"),
+                  ("TERM", False, b" a=b c \n")]
+        for _ in range(0 if quick else 24):
+            killed.append((rng.choice(["KILL", "KILL", "KILL", "TERM"]), rng.random() < 0.5, gen_out(rng, rng.choice([rng.randint(0, 40), rng.randint(41, 3000)]), "utf8")))
+        for how, early, outb in killed:
+            cid = "k%d" % k; k += 1
+            cases.append({"id": cid, "mode": "dyn", "kill": how, "killearly": early, "params": hx("p1 K=v"), "start": "", "via": False, "out": outb.hex(),
+                          "errout": "", "want": [hx("OUT"), hx("1"), hx("K")], "outname": "OUT", "timeout": 30000})
+            meta[cid] = {"kind": "dynkill", "items": [("bare", "p1"), ("named", "K", "v")], "p": "p1 K=v", "at_start": False}
     res, err = run_harness(binp, cases)
     if res is None:
         chk.oblige("harness-run:params", False, err); return
@@ -437,6 +536,10 @@ def run(chk, replay):
             continue
         # ------------------------------------------------ dynamic case
         stats["dyn"] += 1
+        if c.get("kill"):
+            oi = sidx.get(cid + "/out")
+            judge_killed(chk, c, r, rc, stats, dres[oi]["cap"] if oi is not None and dres[oi] is not None else None, disagree)
+            continue
         if c.get("pfails"):
             stats["dyn_multi_attempt_producers"] = stats.get("dyn_multi_attempt_producers", 0) + 1
             if str(r.get("producer_attempts")) != str(c["pfails"] + 1) and not r.get("timeout"):
@@ -542,7 +645,8 @@ def run(chk, replay):
     chk.rule = ("static: item lists of the documented syntax (bare / \"quoted\" / NAME=value / NAME=\"quoted\"; values with spaces, tabs, newlines, "
                 "quotes, '=', backslashes, UTF-8) + corpus of witnesses + random raw strings over {\" \\ = space tab newline ` letters} (malformed "
                 "included); dynamic: the REAL commands `start`, `retry --req`, `restart` (package cmd, one process each) with real sh steps, 8 environment consumers + 2 command-line ($OUT expanded by blackdagger) consumers per run, output names colliding with a named parameter / a DAG env entry / an earlier output, producers retried inside the run, outputs from a byte grammar at sizes "
-                "0,1,4095,4096,4097,65535,65536,65537,100000 + random; non-trivial = item-based string or dynamic case; distinct = distinct input")
+                "0,1,4095,4096,4097,65535,65536,65537,100000 + random; runs ended from outside once the producer is recorded finished (real `start` process SIGKILLed with its steps: no final "
+                "record; SIGTERM as control), then the real `retry --req` — producer not re-run, re-run consumers (environment, command line, handlers) see the value; non-trivial = item-based string or dynamic case; distinct = distinct input")
     ss = [c for c in cases if c["mode"] == "static"][:2] + [c for c in cases if c["mode"] == "dyn"][:1]
     chk.samples = [{"case": {k: (v if len(str(v)) < 200 else str(v)[:200] + "…") for k, v in c.items()},
                     "answer": {k: v for k, v in (res.get(c["id"]) or {}).items() if k in ("pairs", "joined", "run1_status", "run2_status", "timeout")}}
